@@ -61,6 +61,16 @@ def check(ctx, R):
     for roles in all_roles(ctx):
         pump_rules(ctx, R, roles, LockInfo(ctx, roles), T)
     args_match_rules(ctx, R, T)
+    from .c19 import store_lifetime_rules
+    store_lifetime_rules(ctx, R)      # a parked packet (incl. the stream's CLSE) must stay retrievable until the stream is closed
+    # "all transport read fragmentations": the payloads come out of the read-exactly primitive and the packet reader (same instances as C03)
+    from .c03 import _read_exact as read_exact_rules, _packet_reader as packet_reader_rules
+    for roles in all_roles(ctx):
+        read_exact_rules(ctx, R, roles, T)
+        packet_reader_rules(ctx, R, roles, T)
+    # two live streams with one local id would see each other's output: id allocation (same instances as C14)
+    from .c14 import id_rules
+    id_rules(ctx, R)
     arg_rule(ctx, R, "shell", "ARG-shell", min_count=10)
     R.assume("bytes.join / bytes.decode(errors='backslashreplace') behave as documented (the latter never raises)")
     R.undecided("the UTF-8 result values themselves (library semantics, trusted)")
